@@ -137,6 +137,7 @@ def run(tier):
     ck.assumptions += ['releases enter through Banner.parse/Software.parse with the product banner spellings of the repo tests',
                        'pairs differing only by trailing .0 components are not ordered by the property and are skipped']
     frames_leg(ck, rnd, tier)
+    descriptor_leg(ck, rnd, tier)
     # CLI leg: shared with C13
     try:
         from checks import c13
@@ -227,6 +228,44 @@ def _classify(a, b):
         if x != y:
             return 'component-width-differs' if len(str(x)) != len(str(y)) else 'same-width-components'
     return 'prefix'
+
+
+def descriptor_leg(ck, rnd, tier):
+    """The database writes "first appeared in" releases as descriptors - an optional product prefix ('d' Dropbear, 'l1' libssh, none
+    OpenSSH), the version, an optional 'C' for client-only: decoding a descriptor gives back exactly the version that was written,
+    whatever digits it begins with (a libssh 1.x or 10.x release begins with the digit of the prefix), for every product."""
+    from ssh_audit.algorithm import Algorithm
+    comps = [0, 1, 2, 7, 9, 10, 11, 12, 19, 99, 100, 101, 110, 111, 2013, 2020]
+    vers = set()
+    for a in comps:
+        for b in comps:
+            vers.add((a, b))
+            for c in (0, 1, 10, 11):
+                vers.add((a, b, c))
+    if tier == 'quick':
+        vers = set(rnd.sample(sorted(vers), 600)) | {(1, 0, 1), (11, 0, 1), (12, 1), (1, 1), (10, 7, 0), (111, 1), (2020, 80)}
+    want_prod = {'': 'OpenSSH', 'd': 'Dropbear SSH', 'l1': 'libssh'}
+    n = 0
+    for v in sorted(vers):
+        txt = '.'.join(str(x) for x in v)
+        for pre in ('', 'd', 'l1'):
+            for cli in (False, True):
+                ck.evaluated()
+                n += 1
+                desc = pre + txt + ('C' if cli else '')
+                try:
+                    got = Algorithm.get_ssh_version(desc)
+                except Exception as e:      # noqa
+                    ck.violation('descriptor-decoding-raises', 'get_ssh_version(%r) raised %r' % (desc, e), {'descriptor': desc})
+                    continue
+                want = (want_prod[pre], txt, cli)
+                if tuple(got) != want:
+                    ck.violation('descriptor-decoding product=%s' % want_prod[pre].split()[0], 'the descriptor %r decodes to %r, it was written as %r' % (desc, tuple(got), want),
+                                 {'descriptor': desc, 'decoded': list(got), 'written': list(want)})
+                else:
+                    ck.cov['traces_validated_against_impl'] += 1
+    ck.nontrivial(('descriptors', n))
+    ck.notes.append('descriptor leg: %d database version descriptors decoded' % n)
 
 
 def frames_leg(ck, rnd, tier):
